@@ -735,5 +735,54 @@ Theorem C03_wiring_Strand_table_proportions :
 Proof. exact Proofs.GenAgreeWiring_C03.gen_wiring_Strand_table_proportions. Qed.
 Print Assumptions C03_wiring_Strand_table_proportions.
 
+Theorem C03_wiring_SecondOrderMeasures_column_comparable_counts :
+  wsrc_SecondOrderMeasures_column_comparable_counts = Some (WCall (WGlobal "_ColumnComparableCounts")
+      [WSelf "_dimensions"; WVar "self"; WSelf "_cube_measures"] []).
+Proof. exact Proofs.GenAgreeWiring_C03.gen_wiring_SecondOrderMeasures_column_comparable_counts. Qed.
+Print Assumptions C03_wiring_SecondOrderMeasures_column_comparable_counts.
+
+Theorem C03_wiring_SecondOrderMeasures_column_proportions :
+  wsrc_SecondOrderMeasures_column_proportions = Some (WCall (WGlobal "_ColumnProportions") [WSelf
+      "_dimensions"; WVar "self"; WSelf "_cube_measures"] []).
+Proof. exact Proofs.GenAgreeWiring_C03.gen_wiring_SecondOrderMeasures_column_proportions. Qed.
+Print Assumptions C03_wiring_SecondOrderMeasures_column_proportions.
+
+Theorem C03_wiring_SecondOrderMeasures_columns_table_proportion :
+  wsrc_SecondOrderMeasures_columns_table_proportion = Some (WCall (WGlobal "_MarginTableProportion")
+      [WSelf "_dimensions"; WVar "self"; WSelf "_cube_measures"; WAttr (WGlobal "MO") "COLUMNS"]
+      []).
+Proof. exact Proofs.GenAgreeWiring_C03.gen_wiring_SecondOrderMeasures_columns_table_proportion. Qed.
+Print Assumptions C03_wiring_SecondOrderMeasures_columns_table_proportion.
+
+Theorem C03_wiring_SecondOrderMeasures_row_comparable_counts :
+  wsrc_SecondOrderMeasures_row_comparable_counts = Some (WCall (WGlobal "_RowComparableCounts") [WSelf
+      "_dimensions"; WVar "self"; WSelf "_cube_measures"] []).
+Proof. exact Proofs.GenAgreeWiring_C03.gen_wiring_SecondOrderMeasures_row_comparable_counts. Qed.
+Print Assumptions C03_wiring_SecondOrderMeasures_row_comparable_counts.
+
+Theorem C03_wiring_SecondOrderMeasures_row_proportions :
+  wsrc_SecondOrderMeasures_row_proportions = Some (WCall (WGlobal "_RowProportions") [WSelf
+      "_dimensions"; WVar "self"; WSelf "_cube_measures"] []).
+Proof. exact Proofs.GenAgreeWiring_C03.gen_wiring_SecondOrderMeasures_row_proportions. Qed.
+Print Assumptions C03_wiring_SecondOrderMeasures_row_proportions.
+
+Theorem C03_wiring_SecondOrderMeasures_rows_table_proportion :
+  wsrc_SecondOrderMeasures_rows_table_proportion = Some (WCall (WGlobal "_MarginTableProportion")
+      [WSelf "_dimensions"; WVar "self"; WSelf "_cube_measures"; WAttr (WGlobal "MO") "ROWS"] []).
+Proof. exact Proofs.GenAgreeWiring_C03.gen_wiring_SecondOrderMeasures_rows_table_proportion. Qed.
+Print Assumptions C03_wiring_SecondOrderMeasures_rows_table_proportion.
+
+Theorem C03_wiring_SecondOrderMeasures_table_proportions :
+  wsrc_SecondOrderMeasures_table_proportions = Some (WCall (WGlobal "_TableProportions") [WSelf
+      "_dimensions"; WVar "self"; WSelf "_cube_measures"] []).
+Proof. exact Proofs.GenAgreeWiring_C03.gen_wiring_SecondOrderMeasures_table_proportions. Qed.
+Print Assumptions C03_wiring_SecondOrderMeasures_table_proportions.
+
+Theorem C03_wiring_StripeMeasures_table_proportions :
+  wsrc_StripeMeasures_table_proportions = Some (WCall (WGlobal "_TableProportions") [WSelf
+      "_rows_dimension"; WVar "self"; WSelf "_cube_measures"] []).
+Proof. exact Proofs.GenAgreeWiring_C03.gen_wiring_StripeMeasures_table_proportions. Qed.
+Print Assumptions C03_wiring_StripeMeasures_table_proportions.
+
 End Wiring_C03.
 (* ---- WIRING-APPENDIX:END ---- *)
